@@ -114,13 +114,21 @@ def build(dest):
     run(["ld", "-r", "-o", srv] + objs(SERVER + COMMON))
     run(["objcopy", "--keep-global-symbol=iodined_main", "--keep-global-symbol=users",
          "--keep-global-symbol=usercount", srv])
+    # the client's tunnel state lives in file-scope statics of client.c: make those symbols visible to the simulation
+    # kernel (read-only projection for the Layer A binding of Tunnel.tla's client half) - no source change needed
+    CLISTATE = ["outpkt", "inpkt", "outchunkresent", "chunkid", "chunkid_prev", "chunkid_prev2", "send_ping_soon",
+                "lazymode"]
+    run(["objcopy"] + ["--globalize-symbol=" + v for v in CLISTATE] + [os.path.join(dest, "san", "client.o")])
     cli = os.path.join(dest, "san", "client_all.o")
     run(["ld", "-r", "-o", cli] + objs(CLIENT + COMMON))
-    run(["objcopy", "--keep-global-symbol=iodine_main", cli])
+    run(["objcopy", "--keep-global-symbol=iodine_main"] + ["--keep-global-symbol=" + v for v in CLISTATE] + [cli])
     clis = []
     for k in range(3):
         ck = os.path.join(dest, "san", "client_%d.o" % k)
-        run(["objcopy", "--redefine-sym", "iodine_main=iodine_main_%d" % k, cli, ck])
+        redef = ["--redefine-sym", "iodine_main=iodine_main_%d" % k]
+        for v in CLISTATE:
+            redef += ["--redefine-sym", "%s=cli%d_%s" % (v, k, v)]
+        run(["objcopy"] + redef + [cli, ck])
         clis.append(ck)
     link = ["clang"] + SAN + ["-o", os.path.join(dest, "simk"),
                               os.path.join(dest, "san", "simk.o"), srv] + clis
